@@ -197,6 +197,10 @@ def gen_C20(rng, tier):
         x = rng.getrandbits(32)
         y = x if rng.random() < 0.3 else rng.getrandbits(32)
         cases.append("conveq %d %d" % (x, y))
+    # symbolic values built directly as Custom(x), including the non-canonical Custom(0..21)
+    for x in list(range(0, 26)) + [0xFFFFFFFF, 1000]:
+        for y in sorted(set([x, (x + 1) & 0xFFFFFFFF, 0, 21, 22, rng.getrandbits(32)])):
+            cases.append("conveqc %d %d" % (x, y))
     for b in range(256):
         cases.append("fb %d" % b)
     cases.append("magic")
@@ -526,7 +530,7 @@ def gen_C10(rng, tier):
 def gen_C13(rng, tier):
     cases = []
     dist = {"small": 0, "window": 0, "random": 0, "misaligned_buffer": 0}
-    MAG = E.u32(E.HDR_MAGIC)
+    MAG = E.u32(E.HDR_MAGIC)            # d6 50 52 e8
 
     def buf(n, positions, stored=None, fill=0):
         b = bytearray([fill] * n)
@@ -550,6 +554,17 @@ def gen_C13(rng, tier):
         # partial magic at the very end
         if n >= 2:
             cases.append("find 0 " + hx(buf(n, [n - 2])))
+    # content-dependent search: partial magics and single magic bytes (every prefix and rotation of d6 50 52 e8) 1..7 bytes
+    # in front of a real occurrence, in a buffer of magic-alphabet filler; and overlapping partial occurrences
+    for pos in (8, 16, 24, 21):
+        for back in range(1, 8):
+            for frag in (MAG[:1], MAG[:2], MAG[:3], MAG[1:2], MAG[1:], MAG[3:] + MAG[:1], bytes([0xd6, 0xd6]), bytes([0xd6, 0x50, 0xd6])):
+                if pos - back < 0:
+                    continue
+                b = bytearray(buf(56, [pos], 16, fill=rng.choice([0, 0xd6, 0x50, 0xe8])))
+                b[pos - back:pos - back + len(frag)] = frag[:back]      # never overwrites the real occurrence
+                cases.append("find 0 " + hx(bytes(b)))
+                dist["fragments"] = dist.get("fragments", 0) + 1
     # two occurrences: the first one decides
     for (i, j) in ((8, 24), (4, 16), (16, 20), (0, 8), (9, 16)):
         cases.append("find 0 " + hx(buf(48, [j, i], 16)))
@@ -607,7 +622,7 @@ def judge_C13(case, ml, il):
 PROPS.update({
     "C02": dict(gen=gen_C02, configs=["dev", "rel"], judge=judge_projection(["load"]), both_placements=True,
                 assumptions=["the memory made valid for load is max(8, declared total size) bytes (the caller's obligation under load's safety contract)"]),
-    "C03": dict(gen=gen_C03, configs=["dev", "rel"], judge=judge_projection(["load", "tag", "tags", "tags_nth", "tags_count", "module", "modules", "new", "clone", "next"]),
+    "C03": dict(gen=gen_C03, configs=["dev", "rel"], judge=judge_projection(["load", "tag", "tags", "tags_nth", "tags_count", "tags_clone", "module", "modules", "new", "clone", "next"]),
                 both_placements=True, assumptions=["an iterator is not used again after one of its calls panicked"]),
     "C10": dict(gen=gen_C10, configs=["dev", "rel"], judge=judge_projection(["load", "calc_checksum", "verify_checksum"]), both_placements=True,
                 assumptions=["the architecture word is 0 or 4 (a defined HeaderTagISA value), as the property presupposes"]),
@@ -651,8 +666,19 @@ def gen_C15(rng, tier):
                 cases.append("mbi " + hx(E.mbi([E.tag(typ, bytes(body)[:max(0, s - 8)], size=s)])))
                 dist["builtin"] += 1
     # BootInformation::get_tag::<T>() with user-defined T: the tag of T's ID absent / first / behind others / twice, every size 8..40
+    # a slice longer than the tag it starts with (ref_from_slice takes the size from the header, not from the slice)
+    for size in range(8, 41):
+        for extra in (8, 16, 24):
+            tb = tagbytes(size) + marker(extra, start=size + extra)
+            for k in (0, 1, 2, 4, 6):
+                cases.append("cast 0 %d %s" % (k, hx(tb)))
+                dist["sized"] += 1
+            for F in USER_FIXED[:3]:
+                for (es, ea) in USER_ELEMS[:4]:
+                    cases.append("cast 1 %d %d %d %s" % (F, es, ea, hx(tb)))
+                    dist["dst"] += 1
     for sel, typ in ((0, 4096), (1, 4097), (2, 1)):
-        for size in range(8, 41):
+        for size in range(0, 41):
             tb = tagbytes(size, typ)
             other = tagbytes(8 + rng.randrange(0, 20), rng.choice([4095, 4098, 5, 2]))
             for tags in ([tb], [other, tb], [tb, tagbytes(16, typ)], [other]):
@@ -661,7 +687,7 @@ def gen_C15(rng, tier):
     return cases, dict(
         rule="gettag: get_tag::<T>() for three user-defined T (sized with two words / DST with a u32 tail / header-only type "
              "claiming the command-line ID) on regions where the tag of T's ID is absent, first, behind another tag, or present "
-             "twice, for every tag size 8..40. cast: 7 sized user types (0..6 extra words) and 36 DST user types (fixed extra bytes {0,1,4,8,12,16} x element "
+             "twice, for every tag size 0..40. cast: also on slices 8..24 bytes longer than the tag; 7 sized user types (0..6 extra words) and 36 DST user types (fixed extra bytes {0,1,4,8,12,16} x element "
              "(size,align) {(1,1),(2,2),(3,1),(4,4),(8,8),(24,8)}) x every tag size 8..96 (exhaustive); mbi: each of the 22 built-in "
              "kinds in a one-tag region x sizes 8..40 and around its fixed size. Compared: panic or (address, size_of_val, element "
              "count). distinct_nontrivial = distinct (domain, model transcript) pairs.",
@@ -1438,8 +1464,9 @@ PROPS.update({
                 "of the built header (load incl. magic/arch/length/checksum/verify, walk, all getters). distinct_nontrivial = distinct "
                 "(domain, model transcript) pairs."),
                 configs=["dev", "rel"], judge=judge_mbi_full, assumptions=[]),
-    "C16": dict(gen=_builder_gen(["newboxed", "clone"],
-                "newboxed: for the three tag-header kinds every total content length 0..40 split into 0..4 slices (seeded cut points), a "
+    "C16": dict(gen=_builder_gen(["newboxed", "clone", "boxed"],
+                "ctor/hctor: every allocating constructor (the boxed tag kinds, the information request tag with 0..30 requests) with "
+                "the layout asked of the allocator and the layout the box is freed with; newboxed: for the three tag-header kinds every total content length 0..40 split into 0..4 slices (seeded cut points), a "
                 "1500-byte slice; clone: clone_dyn of every dynamically sized kind built from seeded arguments and of strings/payloads of "
                 "every length 0..40. Compared: size_of_val, header bytes, content bytes, (size, align) of the one allocation and of the one "
                 "deallocation (tracking global allocator); for clones type/size/extent/bytes of original and clone. "
